@@ -8,6 +8,7 @@ import Mathlib.Tactic.FieldSimp
 import Mathlib.Tactic.Positivity
 import Mathlib.Order.Defs.LinearOrder
 import Mathlib.Algebra.Order.Archimedean.Real.Basic
+import Mathlib.Algebra.BigOperators.Group.Finset.Basic
 /-!
 Helper lemmas for C07 (model `BppModel/VecTools.lean` read at `ℝ`).
 -/
@@ -1480,5 +1481,298 @@ theorem haveSameElements_iff' (a b : List β) : haveSameElements deq dlt a b = t
   · simp only [hl, ne_eq, not_false_eq_true, if_true, Bool.false_eq_true, false_iff]
     intro h; exact hl h.length_eq
 end Sets
+
+/-! ### containsAll -/
+section SetsC
+variable {β : Type} [LinearOrder β]
+
+theorem containsAllLoop_spec (xs s : List β) (prev : Option β) (hxs : xs.Pairwise (· ≤ ·)) (hs : s.Pairwise (· ≤ ·))
+    (hp : ∀ p, prev = some p → ∀ x ∈ xs, p ≤ x) :
+    containsAllLoop deq dlt prev xs s = true ↔ ∀ z ∈ xs, (prev = some z ∨ z ∈ s) := by
+  induction xs generalizing prev s with
+  | nil => simp [containsAllLoop]
+  | cons x xs ih =>
+    have hxs' : xs.Pairwise (· ≤ ·) := (List.pairwise_cons.mp hxs).2
+    have hxall : ∀ w ∈ xs, x ≤ w := (List.pairwise_cons.mp hxs).1
+    by_cases hdup : prev = some x
+    · subst hdup
+      have : containsAllLoop deq dlt (some x) (x :: xs) s = containsAllLoop deq dlt (some x) xs s := by
+        simp [containsAllLoop, sameAsPrev]
+      rw [this, ih s (some x) hxs' hs (by intro p hp' w hw; cases hp'; exact hxall w hw)]
+      constructor
+      · intro h z hz
+        rcases List.mem_cons.mp hz with rfl | hz
+        · exact Or.inl rfl
+        · exact h z hz
+      · intro h z hz; exact h z (List.mem_cons_of_mem _ hz)
+    · have hskip := skip_false prev x hdup
+      have hplt : ∀ p, prev = some p → p < x := by
+        intro p hp'
+        have hle := hp p hp' x (by simp)
+        exact lt_of_le_of_ne hle (fun h => hdup (by rw [hp', h]))
+      obtain ⟨a1, a2, a3, a4⟩ := advance_spec x s hs
+      have hrest := ih (advance dlt x s) (some x) hxs' a1 (by intro p hp' w hw; cases hp'; exact hxall w hw)
+      have hstep : containsAllLoop deq dlt prev (x :: xs) s =
+          (if x ∈ s then containsAllLoop deq dlt (some x) xs (advance dlt x s) else false) := by
+        simp only [containsAllLoop, hskip, Bool.false_eq_true, if_false]
+        cases hadv : advance dlt x s with
+        | nil =>
+          have : s = [] := a4.mp hadv
+          simp [this]
+        | cons y rest =>
+          have := a3 y rest hadv
+          simp only
+          by_cases hyx : y = x
+          · have h1 : deq y x = true := by simp [hyx]
+            simp [h1, this.mpr hyx]
+          · have h1 : deq y x = false := by simp [hyx]
+            have h2 : x ∉ s := fun h => hyx (this.mp h)
+            simp [h1, h2]
+      rw [hstep]
+      by_cases hxs_in : x ∈ s
+      · simp only [hxs_in, if_true]
+        rw [hrest]
+        constructor
+        · intro h z hz
+          rcases List.mem_cons.mp hz with rfl | hz
+          · exact Or.inr hxs_in
+          · rcases h z hz with h' | h'
+            · cases h'; exact Or.inr hxs_in
+            · exact Or.inr ((a2 z (hxall z hz)).mp h')
+        · intro h z hz
+          rcases h z (List.mem_cons_of_mem _ hz) with h' | h'
+          · have := hplt z h'
+            exact absurd (lt_of_lt_of_le this (hxall z hz)) (lt_irrefl _)
+          · exact Or.inr ((a2 z (hxall z hz)).mpr h')
+      · simp only [hxs_in, if_false, Bool.false_eq_true, false_iff]
+        intro h
+        rcases h x (by simp) with h' | h'
+        · exact hdup h'
+        · exact hxs_in h'
+
+theorem containsAll_iff' (a b : List β) : containsAll deq dlt a b = true ↔ ∀ x ∈ b, x ∈ a := by
+  unfold containsAll
+  rw [containsAllLoop_spec _ _ none (sorted_mergeSort_dlt b) (sorted_mergeSort_dlt a) (by intro p hp; cases hp)]
+  simp [List.mem_mergeSort]
+
+theorem containsAllOrig_empty_ub' (b : List β) (hb : b ≠ []) : containsAllOrig deq dlt [] b = .error .ub := by
+  unfold containsAllOrig
+  have hlen : (b.mergeSort (leOfLt dlt)).length = b.length := List.length_mergeSort b
+  cases hs : b.mergeSort (leOfLt dlt) with
+  | nil => rw [hs] at hlen; exact absurd (List.length_eq_zero_iff.mp hlen.symm) hb
+  | cons x xs => simp [containsAllLoopOrig, sameAsPrev, advance]
+end SetsC
+
+/-! ### std::map as a sorted association list -/
+
+section Maps
+variable {β γ : Type} [LinearOrder β] (lt : β → β → Bool) (hlt : ∀ a b, lt a b = true ↔ a < b)
+
+def SortedKeys (m : List (β × γ)) : Prop := (m.map (·.1)).Pairwise (· < ·)
+
+include hlt in
+theorem lt_false_iff (a b : β) : lt a b = false ↔ b ≤ a := by
+  rw [← not_lt, ← hlt a b]; simp
+
+include hlt in
+theorem mapGet?_update (k : β) (f : Option γ → γ) (m : List (β × γ)) (hm : SortedKeys m) (k' : β) :
+    mapGet? lt k' (mapUpdate lt k f m) = if k' = k then some (f (mapGet? lt k m)) else mapGet? lt k' m := by
+  induction m with
+  | nil =>
+    simp only [mapUpdate, mapGet?]
+    by_cases h : k' = k
+    · subst h; simp [(lt_false_iff lt hlt k' k').mpr (le_refl _)]
+    · simp only [h, if_false]
+      rcases lt_or_gt_of_ne h with h' | h'
+      · simp [(hlt k' k).mpr h']
+      · simp [(lt_false_iff lt hlt k' k).mpr h'.le, (hlt k k').mpr h']
+  | cons e es ih =>
+    obtain ⟨k0, c0⟩ := e
+    have hes : SortedKeys es := (List.pairwise_cons.mp hm).2
+    have hk0 : ∀ x ∈ es.map (·.1), k0 < x := (List.pairwise_cons.mp hm).1
+    simp only [mapUpdate]
+    rcases lt_trichotomy k k0 with hlt0 | heq | hgt0
+    · -- new key goes in front
+      simp only [(hlt k k0).mpr hlt0, if_true, mapGet?]
+      by_cases h : k' = k
+      · subst h; simp [(lt_false_iff lt hlt k' k').mpr (le_refl _)]
+      · simp only [h, if_false]
+        rcases lt_or_gt_of_ne h with h' | h'
+        · simp [(hlt k' k).mpr h', (hlt k' k0).mpr (lt_trans h' hlt0)]
+        · simp [(lt_false_iff lt hlt k' k).mpr h'.le, (hlt k k').mpr h']
+    · subst heq
+      simp only [(lt_false_iff lt hlt k k).mpr (le_refl _), Bool.false_eq_true, if_false, mapGet?]
+      by_cases h : k' = k
+      · subst h; simp [(lt_false_iff lt hlt k' k').mpr (le_refl _)]
+      · simp only [h, if_false]
+        rcases lt_or_gt_of_ne h with h' | h'
+        · simp [(hlt k' k).mpr h']
+        · simp [(lt_false_iff lt hlt k' k).mpr h'.le, (hlt k k').mpr h']
+    · simp only [(lt_false_iff lt hlt k k0).mpr hgt0.le, Bool.false_eq_true, if_false, (hlt k0 k).mpr hgt0, if_true, mapGet?]
+      rw [ih hes]
+      by_cases h : k' = k
+      · subst h
+        simp [(lt_false_iff lt hlt k' k0).mpr hgt0.le, (hlt k0 k').mpr hgt0]
+      · simp only [h, if_false]
+
+include hlt in
+theorem mapUpdate_keys (k : β) (f : Option γ → γ) (m : List (β × γ)) (hm : SortedKeys m) :
+    SortedKeys (mapUpdate lt k f m) ∧ ∀ x, x ∈ (mapUpdate lt k f m).map (·.1) ↔ x = k ∨ x ∈ m.map (·.1) := by
+  induction m with
+  | nil => simp [mapUpdate, SortedKeys]
+  | cons e es ih =>
+    obtain ⟨k0, c0⟩ := e
+    have hes : SortedKeys es := (List.pairwise_cons.mp hm).2
+    have hk0 : ∀ x ∈ es.map (·.1), k0 < x := (List.pairwise_cons.mp hm).1
+    simp only [mapUpdate]
+    rcases lt_trichotomy k k0 with hlt0 | heq | hgt0
+    · simp only [(hlt k k0).mpr hlt0, if_true]
+      refine ⟨?_, by intro x; simp⟩
+      unfold SortedKeys
+      simp only [List.map_cons, List.pairwise_cons]
+      refine ⟨?_, List.pairwise_cons.mp hm⟩
+      intro x hx
+      rcases List.mem_cons.mp hx with h | hx
+      · rw [h]; exact hlt0
+      · exact lt_trans hlt0 (hk0 x hx)
+    · subst heq
+      simp only [(lt_false_iff lt hlt k k).mpr (le_refl _), Bool.false_eq_true, if_false]
+      refine ⟨hm, by intro x; simp⟩
+    · simp only [(lt_false_iff lt hlt k k0).mpr hgt0.le, Bool.false_eq_true, if_false, (hlt k0 k).mpr hgt0, if_true]
+      obtain ⟨i1, i2⟩ := ih hes
+      refine ⟨?_, ?_⟩
+      · unfold SortedKeys
+        simp only [List.map_cons, List.pairwise_cons]
+        refine ⟨?_, i1⟩
+        intro x hx
+        rcases (i2 x).mp hx with rfl | hx
+        · exact hgt0
+        · exact hk0 x hx
+      · intro x
+        simp only [List.map_cons, List.mem_cons, i2 x]
+        tauto
+
+include hlt in
+theorem mapGet?_eq_some_iff (m : List (β × γ)) (hm : SortedKeys m) (k : β) (c : γ) :
+    mapGet? lt k m = some c ↔ (k, c) ∈ m := by
+  induction m with
+  | nil => simp [mapGet?]
+  | cons e es ih =>
+    obtain ⟨k0, c0⟩ := e
+    have hes : SortedKeys es := (List.pairwise_cons.mp hm).2
+    have hk0 : ∀ x ∈ es.map (·.1), k0 < x := (List.pairwise_cons.mp hm).1
+    simp only [mapGet?, List.mem_cons, Prod.mk.injEq]
+    rcases lt_trichotomy k k0 with hlt0 | heq | hgt0
+    · simp only [(hlt k k0).mpr hlt0, if_true]
+      constructor
+      · intro h; cases h
+      · rintro (⟨rfl, -⟩ | h)
+        · exact absurd hlt0 (lt_irrefl _)
+        · have := hk0 k (List.mem_map.mpr ⟨(k, c), h, rfl⟩)
+          exact absurd (lt_trans hlt0 this) (lt_irrefl _)
+    · subst heq
+      simp only [(lt_false_iff lt hlt k k).mpr (le_refl _), Bool.false_eq_true, if_false, Option.some.injEq, true_and]
+      constructor
+      · intro h; exact Or.inl h.symm
+      · rintro (h | h)
+        · exact h.symm
+        · have := hk0 k (List.mem_map.mpr ⟨(k, c), h, rfl⟩)
+          exact absurd this (lt_irrefl _)
+    · simp only [(lt_false_iff lt hlt k k0).mpr hgt0.le, Bool.false_eq_true, if_false, (hlt k0 k).mpr hgt0, if_true]
+      rw [ih hes]
+      constructor
+      · intro h; exact Or.inr h
+      · rintro (⟨rfl, -⟩ | h)
+        · exact absurd hgt0 (lt_irrefl _)
+        · exact h
+end Maps
+
+/-! ### count maps, shannonDiscrete -/
+section CountMaps
+open scoped BigOperators
+
+theorem real_ltb_iff (a b : ℝ) : Scalar.ltb a b = true ↔ a < b := ltb_iff a b
+
+/-- invariant of the count map after processing `l` -/
+def CountInv (m : List (ℝ × ℝ)) (l : List ℝ) : Prop :=
+  SortedKeys m ∧ ∀ k, mapGet? Scalar.ltb k m = if l.count k = 0 then none else some (l.count k : ℝ)
+
+theorem countMap_fold (v l : List ℝ) (m : List (ℝ × ℝ)) (h : CountInv m l) :
+    CountInv (v.foldl (fun m x => mapUpdate Scalar.ltb x (fun o => o.getD Scalar.zero + Scalar.one) m) m) (l ++ v) := by
+  induction v generalizing m l with
+  | nil => simpa using h
+  | cons x xs ih =>
+    simp only [List.foldl_cons]
+    have := ih (l ++ [x]) (mapUpdate Scalar.ltb x (fun o => o.getD Scalar.zero + Scalar.one) m) ?_
+    · simpa using this
+    · obtain ⟨hs, hg⟩ := h
+      refine ⟨(mapUpdate_keys _ real_ltb_iff x _ m hs).1, ?_⟩
+      intro k
+      rw [mapGet?_update _ real_ltb_iff x _ m hs k]
+      by_cases hk : k = x
+      · subst hk
+        simp only [if_true, hg k, List.count_append, List.count_singleton_self]
+        by_cases hc : l.count k = 0
+        · simp [hc]
+        · simp [hc]
+      · simp only [hk, if_false, hg k, List.count_append]
+        have : [x].count k = 0 := by simp [Ne.symm hk]
+        simp [this]
+
+theorem countMap_inv (v : List ℝ) : CountInv (countMap v) v := by
+  have := countMap_fold v [] [] ⟨by simp [SortedKeys], by intro k; simp [mapGet?]⟩
+  simpa [countMap] using this
+
+theorem countMap_mem (v : List ℝ) (k c : ℝ) : (k, c) ∈ countMap v ↔ k ∈ v ∧ c = (v.count k : ℝ) := by
+  obtain ⟨hs, hg⟩ := countMap_inv v
+  rw [← mapGet?_eq_some_iff _ real_ltb_iff _ hs, hg k]
+  by_cases hc : v.count k = 0
+  · simp only [hc, if_true]
+    have : k ∉ v := List.count_eq_zero.mp hc
+    simp [this]
+  · simp only [hc, if_false, Option.some.injEq]
+    have : k ∈ v := by
+      by_contra h; exact hc (List.count_eq_zero.mpr h)
+    simp [this, eq_comm]
+
+theorem countMap_get (v : List ℝ) (k : ℝ) : (mapGet? Scalar.ltb k (countMap v)).getD Scalar.zero = (v.count k : ℝ) := by
+  obtain ⟨-, hg⟩ := countMap_inv v
+  rw [hg k]
+  by_cases hc : v.count k = 0 <;> simp [hc]
+
+/-- a sum over the count map is a sum over the distinct elements -/
+theorem countMap_sum (v : List ℝ) (g : ℝ → ℝ → ℝ) :
+    ((countMap v).map (fun kc => g kc.1 kc.2)).sum = ∑ k ∈ v.toFinset, g k (v.count k : ℝ) := by
+  obtain ⟨hs, -⟩ := countMap_inv v
+  have hnd : ((countMap v).map (·.1)).Nodup := hs.imp (fun {a b} h => ne_of_lt h)
+  have hval : (countMap v).map (fun kc => g kc.1 kc.2) = ((countMap v).map (·.1)).map (fun k => g k (v.count k : ℝ)) := by
+    rw [List.map_map]
+    apply List.map_congr_left
+    intro kc hkc
+    have := (countMap_mem v kc.1 kc.2).mp hkc
+    simp [this.2]
+  have hfs : ((countMap v).map (·.1)).toFinset = v.toFinset := by
+    ext k
+    simp only [List.mem_toFinset, List.mem_map]
+    constructor
+    · rintro ⟨kc, hkc, rfl⟩; exact ((countMap_mem v kc.1 kc.2).mp hkc).1
+    · intro hk; exact ⟨(k, (v.count k : ℝ)), (countMap_mem v k _).mpr ⟨hk, rfl⟩, rfl⟩
+  rw [hval, ← List.sum_toFinset _ hnd, hfs]
+
+theorem shannonDiscrete_eq (v : List ℝ) (base : ℝ) :
+    shannonDiscrete v base =
+      - ∑ k ∈ v.toFinset, ((v.count k : ℝ) / v.length) * Real.log ((v.count k : ℝ) / v.length) / Real.log base := by
+  unfold shannonDiscrete
+  simp only
+  have : ∀ (m : List (ℝ × ℝ)) (a : ℝ),
+      m.foldl (fun s (kc : ℝ × ℝ) => s + (kc.2 / Scalar.ofInt (v.length : Int)) * Scalar.log (kc.2 / Scalar.ofInt (v.length : Int)) / Scalar.log base) a =
+        a + (m.map (fun kc => (kc.2 / (v.length : ℝ)) * Real.log (kc.2 / (v.length : ℝ)) / Real.log base)).sum := by
+    intro m
+    induction m with
+    | nil => intro a; simp
+    | cons e es ih => intro a; simp only [List.foldl_cons, List.map_cons, List.sum_cons]; rw [ih]; simp; ring
+  rw [this, countMap_sum v (fun _ c => (c / (v.length : ℝ)) * Real.log (c / (v.length : ℝ)) / Real.log base)]
+  simp
+end CountMaps
 
 end Bpp.VecTools
